@@ -419,10 +419,11 @@ def extra_C05(ctx):
 KINDS = ["raw", "nodata", "mbuff", "fixed"]
 
 
-def api_trace(ctx, kind, n, length, seed, tag):
+def api_trace(ctx, kind, n, length, seed, tag, script=None):
     import re
     out = os.path.join(ctx.workdir, f"{tag}.{kind}.ndjson")
-    rv(["record-api", "--seed", str(seed), "--n", str(n), "--len", str(length), "--kind", kind, "--out", out], timeout=1800)
+    rv(["record-api", "--seed", str(seed), "--n", str(n), "--len", str(length), "--kind", kind, "--out", out]
+       + (["--script", script] if script else []), timeout=1800)
     summ = json.load(open(out + ".summary.json"))
     for c in summ["crashed"]:
         ctx.violation(f"API history crashed the process ({c['how']}) on VM kind {kind}", {"kind": "api", "job": c["job"]})
@@ -473,6 +474,40 @@ def run_C10(ctx):
             ctx.violation(f"VmApi design invariant violated (kind {kind})", {"kind": "tlc", "output": r.violation[:3000]})
         ctx.add_tlc(f"MC_VmApi Kind={kind} (complete graph)", r)
     ctx.extra["exhaustive_over_abstract_state"] = True
+    # direction B: a transition cover of the state graph, walked on real VM objects
+    import tour
+    ctx.extra["transition_cover"] = {}
+
+    def cover(kind):
+        r = run_tlc(f"{ctx.prop}-edges-{kind}", "MC_VmApiTour", {"Kind": kind}, invariants=["Inv"], view="view",
+                    extra_cfg="ACTION_CONSTRAINT Edges", workers=2, timeout=900)
+        edges = tour.parse_edges(r.out)
+        hist, total, covered = tour.plan(edges, kind)
+        for first in ("P3", "PX"):          # refused by the default verifier: no VM object comes to exist
+            hist.append({"kind": kind, "first": first, "calls": []})
+        path = os.path.join(ctx.workdir, f"tour.{kind}.script.ndjson")
+        open(path, "w").write("\n".join(json.dumps(h) for h in hist) + "\n")
+        ctx.extra["transition_cover"][kind] = {"abstract_states": r.distinct, "transitions": total, "planned": covered,
+                                               "histories": len(hist), "calls": sum(len(h["calls"]) for h in hist)}
+        if covered != total or total == 0:
+            raise ToolError(f"transition cover of VmApi[{kind}] incomplete: {covered}/{total}")
+        api_trace(ctx, kind, 0, 0, 0, "tour", script=path)
+
+    with ThreadPoolExecutor(max_workers=4) as ex:
+        list(ex.map(cover, KINDS))
+    # negative control (the binding): one observed result changed -> rejected at exactly that call
+    import re
+    lines = open(os.path.join(ctx.workdir, "tour.nodata.ndjson")).read().splitlines()[:400]
+    k = next(i for i, ln in enumerate(lines) if '"op":"exec"' in ln and '"res":"1"' in ln)
+    lines[k] = lines[k].replace('"res":"1"', '"res":"2"')
+    bad = os.path.join(ctx.workdir, "negctl.nodata.ndjson")
+    open(bad, "w").write("\n".join(lines) + "\n")
+    r = run_tlc(f"{ctx.prop}-negctl", "TraceApi", {"Kind": "nodata"}, spec="TraceSpec", invariants=["TraceInv"],
+                postcondition="TraceAccepted", workers=1, timeout=300, env={"TRACE": bad}, expect_violation=True)
+    m = re.search(r'<<"TRACE-REJECTED", (\d+), (\d+)>>', r.out)
+    if not m or int(m.group(1)) != k + 1:
+        raise ToolError(f"negative control failed: corrupted call {k + 1} of an API history was not rejected there")
+    ctx.extra["negative_control"] = "an API history with one changed execution result is rejected by TraceApi at exactly that call"
     n = 250 if ctx.quick else 6000
     with ThreadPoolExecutor(max_workers=4) as ex:
         list(ex.map(lambda k: api_trace(ctx, k, n, 30, ctx.seed * 7 + KINDS.index(k), "hist"), KINDS))
